@@ -159,6 +159,25 @@ def run(ctx) -> None:
     # the two renderers use the same templates
     rep.add("C20.R2", "interactive-vs-mermaid", declared == m_decl, tm.loc(), f"both renderers use the id templates {sorted(declared)}" if declared == m_decl else f"id templates differ: interactive {sorted(declared)} vs Mermaid {sorted(m_decl)}")
 
+    # DATA nodes and function->DATA edges must range over the same attribute of a node
+    domains = {}
+    for f in [x for x in db.all_funcs() if x.module.name.startswith(VIZ)]:
+        for n in walk_local(f.node):
+            if isinstance(n, ast.Assign) and isinstance(n.value, ast.JoinedStr) and (_skeleton(n.value) or "").startswith("data_{}_{}"):
+                vals = [v.value for v in n.value.values if isinstance(v, ast.FormattedValue)]
+                if len(vals) == 2 and isinstance(vals[1], ast.Name):
+                    for a in ancestors(n):
+                        if isinstance(a, ast.For) and isinstance(a.target, ast.Name) and a.target.id == vals[1].id:
+                            k_ = len([q for q in domains if q.startswith(f.qname + "#")])
+                            domains[f"{f.qname}#{k_}"] = (src(a.iter), f"{f.module.rel}:{a.lineno}")
+    per_node = {q: d for q, d in domains.items() if ".get(" in d[0] or "attrs[" in d[0]}
+    if len(per_node) < 3:
+        raise AnalysisError(f"only {len(per_node)} data-node id builders that iterate a node attribute found")
+    kinds = {d[0] for d in per_node.values()}
+    for q, d in sorted(per_node.items()):
+        ok = len(kinds) == 1
+        rep.add("C20.R2", f"{q}:data-node-domain", ok, d[1], f"DATA ids range over {d[0]} in every builder" if ok else f"this builder ranges over {d[0]} while others range over {sorted(kinds - {d[0]})}: edges to DATA nodes that are never declared (or declared DATA nodes without edge)")
+
     # ---- R3 -------------------------------------------------------------------------
     pe = db.func("viz.renderer.precompute.precompute_all_edges")
     pn = db.func("viz.renderer.precompute.precompute_all_nodes")
@@ -299,6 +318,7 @@ VARIANTS = [
     Variant("mermaid-first-consumer-only", MM, replace_once("            actual_targets = internal\n", "            actual_targets = [internal[0]]\n"), {"C20.R1"}),
     Variant("data-edge-id-template-drift", ED, replace_once("                    data_node_id = f\"data_{source}_{value_name}\"", "                    data_node_id = f\"data-{source}-{value_name}\""), {"C20.R2"}),
     Variant("mermaid-end-id-drift", MM, replace_once("            lines.append(_format_edge(node_id, \"__end__\", \"True\"))", "            lines.append(_format_edge(node_id, \"__END__\", \"True\"))"), {"C20.R2"}),
+    Variant("data-nodes-only-for-data-outputs", "src/hypergraph/viz/renderer/nodes.py", replace_once("        for output_name in attrs.get(\"outputs\", ()):\n            if allowed_outputs is not None and output_name not in allowed_outputs:\n                continue\n            data_node_id", "        for output_name in attrs.get(\"data_outputs\", ()):\n            if allowed_outputs is not None and output_name not in allowed_outputs:\n                continue\n            data_node_id"), {"C20.R2"}),
     Variant("node-state-key-drift", PC, replace_once("        key_separate = f\"{exp_key}|sep:1\"\n        nodes_by_state[key_separate] = compute_nodes_for_state(", "        key_separate = f\"{exp_key}|separate\"\n        nodes_by_state[key_separate] = compute_nodes_for_state("), {"C20.R3"}),
     Variant("flatten-wrong-parent", CORE, replace_once("                self._flatten_nodes(G, list(inner.nodes.values()), parent=node_id)", "                self._flatten_nodes(G, list(inner.nodes.values()), parent=node.name)"), {"C20.R4"}),
     Variant("hier-id-dot", CORE, sub_first(r"return f\"\{parent_id\}/\{node_name\}\"", "return f\"{parent_id}.{node_name}\""), {"C20.R4"}),
